@@ -67,6 +67,8 @@ package quat
 // above; lemma inverse shows that Conj(q)/norm2(q) is the two-sided inverse).
 //@ func Inv props: C18
 //@ writes nothing
+// documented special case: the inverse of an infinite quaternion is zero (not 0*Inf = NaN)
+//@ ensures isInf(q.Real) || isInf(q.Imag) || isInf(q.Jmag) || isInf(q.Kmag) ==> same(result.Real, 0.0) && same(result.Imag, 0.0) && same(result.Jmag, 0.0) && same(result.Kmag, 0.0)
 //@ ensures [real] result.Imag*q.Real == -q.Imag*result.Real && result.Jmag*q.Real == -q.Jmag*result.Real && result.Kmag*q.Real == -q.Kmag*result.Real
 
 // ---- algebraic laws (exact arithmetic) ------------------------------------------
